@@ -90,4 +90,29 @@ PROPS = {
         "modelled": EXTERNAL,
         "assumptions": ["arguments are live handles"],
     },
+    "C07": {
+        "suites": [("axes", 150, 400)],
+        "proved_scope": (
+            "all trees, all nodes, unbounded (Tree x Path): document order = lexicographic order on index paths; "
+            "partition law (ancestors, self, descendants, preceding, following = the normal nodes, each once; also for attribute/namespace start nodes) with "
+            "descendants/following in document order and ancestors/preceding in reverse; every machine equals its document-order specification: "
+            "Following (following, all_following; fuel = node count adequate), ReversePreorder (both variants), preceding, descendants, "
+            "NodeEdge::next/previous walks = traverse/reverse_traverse with continuation, level_order = levels with End markers (fuel adequate), "
+            "children/first_child/last_child, following_/preceding_siblings and sibling axes for every category, next_/previous_sibling, child_index, "
+            "axis() for all 12 values, root, document_element, top_element (panic boundary exact), attribute_nodes; plain variants yield normal nodes only; "
+            "all_* variants = node, namespaces, attributes, children; reverse_children: partial (<= 1 raw child) + contract version + proved negation"
+        ),
+        "not_proved": (
+            "indextree's iterators (children, ancestors, descendants, traverse, reverse_traverse, following_/preceding_siblings) are modelled by contract, "
+            "not verified, except Children::next_back whose shipped (defective) code is modelled; traverse/all_traverse are therefore specifications "
+            "(tied to the machines by C07_edges_* and C07_traverse_starts), not verified code; theorems needing the structural hypotheses `wf` "
+            "(non-normal nodes are leaves, no normal child before a non-normal one) / `kidsSorted` (ns, attr, normal) say nothing about ill-ordered trees "
+            "(C04 is to show the API cannot build them); behaviour at invalid paths (stale handles) is not covered"
+        ),
+        "modelled": EXTERNAL,
+        "assumptions": [
+            "tree hypotheses of the theorems: wf (every tree the public API builds; property C04), Valid path",
+            "genawaiter generator in level_order = the plain loop it wraps",
+        ],
+    },
 }
